@@ -36,6 +36,14 @@ class Label(View):
     tag: int = 0
 
 
+@symbol
+@dataclass(eq=False)
+class PairLabel(View):
+    item: Any = None
+    other: Any = None
+    tag: int = 0
+
+
 class Timeout(Exception):
     pass
 
@@ -51,11 +59,25 @@ def clear_registry():
 
 
 def build(case):
-    items = [Item(*bits, idx=i) for i, bits in case['dom']]
-    x = let(Item, items)
+    two = case.get('two')
+    if two:
+        # TWO rule variables: a match is an ASSIGNMENT (x, y); bits 0-1 are attributes of x, bits 2-3 of y, bit 4 is the join x.b0 == y.b2
+        xs = [Item(*bits, idx=i) for i, bits in two['xs']]
+        ys = [Item(*bits, idx=i) for i, bits in two['ys']]
+        x, y = let(Item, xs), let(Item, ys)
+    else:
+        items = [Item(*bits, idx=i) for i, bits in case['dom']]
+        x = let(Item, items)
+
+    def cexpr(b, v):
+        if not two or b < 2:
+            return getattr(x, f'b{b}') == v
+        if b < 4:
+            return getattr(y, f'b{b}') == v
+        return (x.b0 == y.b2) if v else (x.b0 != y.b2)
 
     def cexprs(n):
-        return [getattr(x, f'b{b}') == v for b, v in n['cond']]
+        return [cexpr(b, v) for b, v in n['cond']]
     base = case['prog']
     with symbolic_mode():
         q = infer(views := let(type_=View), *cexprs(base))
@@ -65,8 +87,11 @@ def build(case):
             with (refinement if k == 'ref' else alternative)(*cexprs(c)):
                 block(c)
 
+    def conclusion(tag):
+        return PairLabel(item=x, other=y, tag=tag) if two else Label(item=x, tag=tag)
+
     def block(n):
-        Add(views, Label(item=x, tag=n['tag']))
+        Add(views, conclusion(n['tag']))
         stmts(n['body'])
     # case['splits']: the tree is GROWN - the statements of the base block are written in several `with rule_mode(q)` blocks and
     # the rule is evaluated in between (the way ripple-down rules are maintained)
@@ -76,7 +101,7 @@ def build(case):
             block(base)
     else:
         with rule_mode(q):
-            Add(views, Label(item=x, tag=base['tag']))
+            Add(views, conclusion(base['tag']))
             stmts(base['body'][:cuts[1]])
         for a, b in zip(cuts[1:], cuts[2:]):
             for _ in q.evaluate():
@@ -131,7 +156,8 @@ def run(case):
                 it.close()
             guarded(partial)
         for suffix in ('', '2', '3'):
-            res[cfg + suffix] = guarded(lambda: ';'.join(f'{o.item.idx}:{o.tag}' for o in q.evaluate()))
+            res[cfg + suffix] = guarded(lambda: ';'.join((f'{o.item.idx * 100 + o.other.idx}:{o.tag}' if case.get('two') else f'{o.item.idx}:{o.tag}')
+                                                         for o in q.evaluate()))
     enable_caching()
     clear_registry()
     return res
